@@ -208,7 +208,7 @@ structure Rate where
   fitab   : List Int
   wiShift : Int               -- g721.c: `arith_shift_left (_witab [i], 5)`; the G.723 tables are pre-scaled
   srMask  : Int               -- `dq & 0x3FFF` (0x7FFF in g723_40.c)
-  seInt   : Bool              -- g721_encoder: `se = (sezi + predictor_pole ()) >> 1` without the `short sei` in between
+  seInt   : Bool              -- g721_encoder BEFORE the repair of KF-G721-ENC-SE: `se = (sezi + predictor_pole ()) >> 1` without the `short sei` in between (`g721Old`); false for every rate of the current tree
   zeroFix : Bool              -- g723_16_encoder: `if (i == 3) if ((d & 0x8000) == 0) i = 0`
 deriving Repr
 
@@ -217,7 +217,11 @@ def g721 : Rate :=
     dqlntab := [-2048, 4, 135, 213, 273, 323, 373, 425, 425, 373, 323, 273, 213, 135, 4, -2048],
     witab := [-12, 18, 41, 64, 112, 198, 355, 1122, 1122, 355, 198, 112, 64, 41, 18, -12],
     fitab := [0, 0, 0, 0x200, 0x200, 0x200, 0x600, 0xE00, 0xE00, 0x600, 0x200, 0x200, 0x200, 0, 0, 0],
-    wiShift := 5, srMask := 16384, seInt := true, zeroFix := false }
+    wiShift := 5, srMask := 16384, seInt := false, zeroFix := false }
+
+/-- G.721 as it was before the repair of KF-G721-ENC-SE: the encoder formed `se` from the `int` sum, the decoder from the
+    16-bit `sei` (kept for the `_old_rule` theorems of SfProps/C20G72xTrack.lean) -/
+def g721Old : Rate := { g721 with seInt := true }
 
 def g723_16 : Rate :=
   { bits := 2, qtab := [261], dqlntab := [116, 365, 365, 116], witab := [-704, 14048, 14048, -704],
